@@ -7,6 +7,12 @@
 //   flag_loop       global_conf.go handleNotJSONCheckFlag: bounds of the `for i := A; i < B; i++` loops
 //   documented_types luahelper-vscode/package.nls.json: switch name -> the "[Warn Type:n]" of its description
 //   must_compile_user_text  global_conf.go: is regexp.MustCompile still called on anything but a string literal?
+//   client_opens_types  global_conf.go handleNotJSONCheckFlag: does a client switch that is on reach OpenErrorTypeMap?
+//   file_rules_merged   global_conf.go ReadConfig: is IgnoreFileErrTypesMap read before an entry is (re)assigned?
+//   ignore_guards       check/analysis/*.go: every use of IsGlobalIgnoreErrType: (function, (kind, types)); kind "return" =
+//                       `if ignored(A) && ignored(B) { return }`, "enter" = `if ... && !ignored(A) { ... }`
+//   open_lookups        check/analysis/*.go: every `if _, ok := ...OpenErrorTypeMap[T]; !ok { return }`: (function, T)
+//   analysis_choke_calls check/analysis/*.go: every direct call of IsIgnoreErrorFile: (function, (file argument, type))
 package main
 
 import (
@@ -15,6 +21,7 @@ import (
 	"go/ast"
 	"go/parser"
 	"go/token"
+	"go/types"
 	"io/ioutil"
 	"path/filepath"
 	"regexp"
@@ -123,6 +130,230 @@ func c17CoqStrings(l []string) string {
 		q[i] = "\"" + s + "\""
 	}
 	return "[" + strings.Join(q, "; ") + "]"
+}
+
+
+// ---- the uses of the configuration inside check/analysis (C17 coupled_type / dead_flag) ----
+
+type c17Guard struct {
+	fn, kind string
+	types    []string
+}
+
+// `<anything>.IsGlobalIgnoreErrType(common.X)` -> X
+func c17IgnoreCall(e ast.Expr) (string, bool) {
+	ce, ok := e.(*ast.CallExpr)
+	if !ok || len(ce.Args) != 1 {
+		return "", false
+	}
+	se, ok := ce.Fun.(*ast.SelectorExpr)
+	if !ok || se.Sel.Name != "IsGlobalIgnoreErrType" {
+		return "", false
+	}
+	name, ok := selName(ce.Args[0])
+	if !ok {
+		return "?", true
+	}
+	return name, true
+}
+
+func c17Conjuncts(e ast.Expr) []ast.Expr {
+	if pe, ok := e.(*ast.ParenExpr); ok {
+		return c17Conjuncts(pe.X)
+	}
+	if be, ok := e.(*ast.BinaryExpr); ok && be.Op == token.LAND {
+		return append(c17Conjuncts(be.X), c17Conjuncts(be.Y)...)
+	}
+	return []ast.Expr{e}
+}
+
+func c17LoneReturn(b *ast.BlockStmt) bool {
+	if b == nil || len(b.List) != 1 {
+		return false
+	}
+	rs, ok := b.List[0].(*ast.ReturnStmt)
+	return ok && len(rs.Results) == 0
+}
+
+func c17ContainsIgnoreCall(n ast.Node) int {
+	k := 0
+	ast.Inspect(n, func(x ast.Node) bool {
+		if e, ok := x.(ast.Expr); ok {
+			if _, ok := c17IgnoreCall(e); ok {
+				k++
+			}
+		}
+		return true
+	})
+	return k
+}
+
+func c17ScanAnalysis(dir string) (guards []c17Guard, opens [][2]string, chokes [][3]string, err error) {
+	files, err := filepath.Glob(filepath.Join(dir, "*.go"))
+	if err != nil {
+		return
+	}
+	sort.Strings(files)
+	nfiles := 0
+	for _, path := range files {
+		base := filepath.Base(path)
+		if strings.HasSuffix(base, "_test.go") || strings.HasPrefix(base, "verif_hooks") {
+			continue
+		}
+		var f *ast.File
+		f, err = c17ParseGo(path)
+		if err != nil {
+			return
+		}
+		nfiles++
+		for _, d := range f.Decls {
+			fd, ok := d.(*ast.FuncDecl)
+			if !ok || fd.Body == nil {
+				continue
+			}
+			total := c17ContainsIgnoreCall(fd.Body)
+			covered := 0
+			ast.Inspect(fd.Body, func(n ast.Node) bool {
+				switch x := n.(type) {
+				case *ast.IfStmt:
+					inCond := c17ContainsIgnoreCall(x.Cond)
+					if inCond > 0 {
+						var pos, neg []string
+						odd := false
+						for _, c := range c17Conjuncts(x.Cond) {
+							if t, ok := c17IgnoreCall(c); ok {
+								pos = append(pos, t)
+							} else if ue, ok := c.(*ast.UnaryExpr); ok && ue.Op == token.NOT {
+								if t, ok := c17IgnoreCall(ue.X); ok {
+									neg = append(neg, t)
+								} else if c17ContainsIgnoreCall(c) > 0 {
+									odd = true
+								}
+							} else if c17ContainsIgnoreCall(c) > 0 {
+								odd = true
+							}
+						}
+						covered += inCond
+						switch {
+						case !odd && len(neg) == 0 && len(pos) == len(c17Conjuncts(x.Cond)) && x.Init == nil && x.Else == nil && c17LoneReturn(x.Body):
+							guards = append(guards, c17Guard{fd.Name.Name, "return", pos})
+						case !odd && len(pos) == 0 && len(neg) > 0:
+							guards = append(guards, c17Guard{fd.Name.Name, "enter", neg})
+						default:
+							guards = append(guards, c17Guard{fd.Name.Name, "other", append(pos, neg...)})
+						}
+					}
+					// `if _, ok := <...>.OpenErrorTypeMap[common.T]; !ok { return }`
+					if as, ok := x.Init.(*ast.AssignStmt); ok && len(as.Rhs) == 1 {
+						if ie, ok := as.Rhs[0].(*ast.IndexExpr); ok {
+							if se, ok := ie.X.(*ast.SelectorExpr); ok && se.Sel.Name == "OpenErrorTypeMap" {
+								t, okT := selName(ie.Index)
+								ue, okU := x.Cond.(*ast.UnaryExpr)
+								if !okT || !okU || ue.Op != token.NOT || x.Else != nil || !c17LoneReturn(x.Body) {
+									t = "?"
+								}
+								opens = append(opens, [2]string{fd.Name.Name, t})
+							}
+						}
+					}
+				case *ast.CallExpr:
+					if se, ok := x.Fun.(*ast.SelectorExpr); ok && se.Sel.Name == "IsIgnoreErrorFile" && len(x.Args) == 2 {
+						t, ok := selName(x.Args[1])
+						if !ok {
+							t = "?"
+						}
+						chokes = append(chokes, [3]string{fd.Name.Name, types.ExprString(x.Args[0]), t})
+					}
+				}
+				return true
+			})
+			if covered != total {
+				guards = append(guards, c17Guard{fd.Name.Name, "other", nil})
+			}
+			// any other mention of OpenErrorTypeMap than the recognised look-up
+			nOpen := 0
+			ast.Inspect(fd.Body, func(n ast.Node) bool {
+				if se, ok := n.(*ast.SelectorExpr); ok && se.Sel.Name == "OpenErrorTypeMap" {
+					nOpen++
+				}
+				return true
+			})
+			if nOpen > 0 {
+				// functions have unique names inside the package
+				cnt := 0
+				for _, o := range opens {
+					if o[0] == fd.Name.Name {
+						cnt++
+					}
+				}
+				if cnt != nOpen {
+					opens = append(opens, [2]string{fd.Name.Name, "?"})
+				}
+			}
+		}
+	}
+	if nfiles == 0 {
+		err = fmt.Errorf("%s: no Go files", dir)
+	}
+	return
+}
+
+// handleNotJSONCheckFlag: `<...>.OpenErrorTypeMap[<...>] = true`
+func c17ClientOpens(fd *ast.FuncDecl) bool {
+	found := false
+	ast.Inspect(fd.Body, func(n ast.Node) bool {
+		as, ok := n.(*ast.AssignStmt)
+		if !ok || len(as.Lhs) != 1 || len(as.Rhs) != 1 {
+			return true
+		}
+		ie, ok := as.Lhs[0].(*ast.IndexExpr)
+		if !ok {
+			return true
+		}
+		se, ok := ie.X.(*ast.SelectorExpr)
+		if !ok || se.Sel.Name != "OpenErrorTypeMap" {
+			return true
+		}
+		if id, ok := as.Rhs[0].(*ast.Ident); ok && id.Name == "true" {
+			found = true
+		}
+		return true
+	})
+	return found
+}
+
+// ReadConfig: the IgnoreFileErrTypes loop; merged = the map is read (`v, ok := m[name]`) and not only assigned
+func c17RulesMerged(fd *ast.FuncDecl) (bool, error) {
+	reads, writes := 0, 0
+	lhs := map[ast.Expr]bool{}
+	ast.Inspect(fd.Body, func(n ast.Node) bool {
+		if as, ok := n.(*ast.AssignStmt); ok {
+			for _, l := range as.Lhs {
+				lhs[l] = true
+			}
+		}
+		return true
+	})
+	ast.Inspect(fd.Body, func(n ast.Node) bool {
+		ie, ok := n.(*ast.IndexExpr)
+		if !ok {
+			return true
+		}
+		se, ok := ie.X.(*ast.SelectorExpr)
+		if !ok || se.Sel.Name != "IgnoreFileErrTypesMap" {
+			return true
+		}
+		if lhs[ast.Expr(ie)] {
+			writes++
+		} else {
+			reads++
+		}
+		return true
+	})
+	if writes != 1 || reads > 1 {
+		return false, fmt.Errorf("ReadConfig: IgnoreFileErrTypesMap is indexed %d times on the left and %d times elsewhere: shape not recognised", writes, reads)
+	}
+	return reads == 1, nil
 }
 
 func init() {
@@ -270,6 +501,22 @@ func init() {
 			}
 			return true
 		})
+		clientOpens := c17ClientOpens(hf)
+		rc := c17FindFunc(fg, "ReadConfig")
+		if rc == nil {
+			return out, "", fmt.Errorf("global_conf.go: func ReadConfig not found")
+		}
+		rulesMerged, err := c17RulesMerged(rc)
+		if err != nil {
+			return out, "", err
+		}
+		guards, opens, chokes, err := c17ScanAnalysis(filepath.Join(ls, "check/analysis"))
+		if err != nil {
+			return out, "", err
+		}
+		if len(guards) == 0 || len(opens) == 0 {
+			return out, "", fmt.Errorf("check/analysis: no IsGlobalIgnoreErrType / OpenErrorTypeMap use found: shape not recognised")
+		}
 		// documentation of the switches
 		nls, err := ioutil.ReadFile(filepath.Join(repo, "luahelper-vscode/package.nls.json"))
 		if err != nil {
@@ -323,6 +570,19 @@ func init() {
 		fmt.Fprintf(&b, "Definition flag_loops : list (string * string) :=\n  %s.\n\n", pairs(loops))
 		fmt.Fprintf(&b, "(* %d call(s) of regexp.MustCompile on non-literal text in global_conf.go *)\nDefinition must_compile_user_text : bool := %v.\n\n", mustUser, mustUser > 0)
 		fmt.Fprintf(&b, "(* IntialGlobalVar allocates IgnoreVarMap (before any settings are read) *)\nDefinition var_map_allocated_at_init : bool := %v.\n\n", varMapAtInit)
+		fmt.Fprintf(&b, "(* handleNotJSONCheckFlag writes OpenErrorTypeMap[i] = true for a switch that is on *)\nDefinition client_opens_types : bool := %v.\n\n", clientOpens)
+		fmt.Fprintf(&b, "(* ReadConfig looks an IgnoreFileErrTypes name up before it assigns its type set *)\nDefinition file_rules_merged : bool := %v.\n\n", rulesMerged)
+		gq := make([]string, len(guards))
+		for i, g := range guards {
+			gq[i] = fmt.Sprintf("(\"%s\", (\"%s\", %s))", g.fn, g.kind, c17CoqStrings(g.types))
+		}
+		fmt.Fprintf(&b, "Definition ignore_guards : list (string * (string * list string)) :=\n  [%s].\n\n", strings.Join(gq, ";\n   "))
+		fmt.Fprintf(&b, "Definition open_lookups : list (string * string) :=\n  %s.\n\n", pairs(opens))
+		cq := make([]string, len(chokes))
+		for i, c := range chokes {
+			cq[i] = fmt.Sprintf("(\"%s\", (\"%s\", \"%s\"))", c[0], c[1], c[2])
+		}
+		fmt.Fprintf(&b, "Definition analysis_choke_calls : list (string * (string * string)) :=\n  [%s].\n\n", strings.Join(cq, ";\n   "))
 		dq := make([]string, len(docs))
 		for i, d := range docs {
 			dq[i] = fmt.Sprintf("(\"%s\", %s%%N)", d.name, d.ty)
